@@ -50,25 +50,45 @@ def _nseq(L):
     return sum(8 ** k for k in range(1, L + 1))
 
 
+NOTE_TYPES = ["START_REPLICATION_EVENT", "STARTING_EVENT", "START_EVENT", "TIME_CHANGED_EVENT", "WARMUP_EVENT", "STOPPING_EVENT",
+              "STOP_EVENT", "END_REPLICATION_EVENT"]
+SITES = ["handler"] + NOTE_TYPES
+OVERLAPS = ["stop-vs-natural-end", "start-during-stopping", "step-during-stopping", "bounded-run-during-stopping",
+            "end_replication-in-bounded-run", "stop-then-start-fast", "rapid-start-stop"]
+
+
+def _prefixes(tier):
+    ps = [[]] + [[c] for c in CMDS]
+    if tier != "quick":
+        ps += [[a, b] for a in CMDS for b in CMDS]
+    return ps
+
+
 def _layout(tier):
     L = 4 if tier == "quick" else 5
     nrand = 600 if tier == "quick" else 30000
-    return L, _nseq(L), nrand
+    ngate = len(_prefixes(tier)) * 2 * 8
+    ninside = len(SITES) * 8 * (1 if tier == "quick" else 3)
+    novl = len(OVERLAPS) * 3
+    nstorm = 48 if tier == "quick" else 4000
+    return L, _nseq(L), nrand, ngate, ninside, novl, nstorm
 
 
 def plan(tier):
-    L, nexh, nrand = _layout(tier)
-    return {"cases": nexh + nrand, "shards": 12, "timeout": 1200 if tier == "quick" else 5400, "min_nontrivial": 300,
-            "min": {"commands_judged": 10000, "notification_records_fed_to_automaton": 20000}}
+    L, nexh, nrand, ngate, ninside, novl, nstorm = _layout(tier)
+    return {"cases": nexh + nrand + ngate + ninside + novl + nstorm, "shards": 12, "timeout": 1500 if tier == "quick" else 7200,
+            "min_nontrivial": 300,
+            "min": {"commands_judged": 10000, "notification_records_fed_to_automaton": 20000, "commands_against_a_parked_run": 60,
+                    "commands_from_inside": 60, "forced_overlaps": 15, "storms": 30}}
 
 
 def EXHAUSTIVE(tier):
-    L, nexh, _ = _layout(tier)
+    L, nexh = _layout(tier)[:2]
     return f"all {nexh} command sequences of length <= {L} over the 8-command alphabet at quiescence (fixed float-clock program)"
 
 
 def gen_case(rng, tier, i):
-    L, nexh, nrand = _layout(tier)
+    L, nexh, nrand, ngate, ninside, novl, nstorm = _layout(tier)
     if i < nexh:
         k, j = 1, i
         while j >= 8 ** k:
@@ -80,10 +100,34 @@ def gen_case(rng, tier, i):
             j //= 8
         return {"fam": "seq", "clock": "float", "seq": seq}
     i -= nexh
-    clock = ["float", "int", "duration"][i % 3]
-    w = [3, 4, 4, 1, 2, 2, 1, 1]
-    seq = ["initialize"] + rng.choices(CMDS, weights=w, k=rng.randint(4, 8))
-    return {"fam": "seq", "clock": clock, "seq": seq}
+    if i < nrand:
+        clock = ["float", "int", "duration"][i % 3]
+        w = [3, 4, 4, 1, 2, 2, 1, 1]
+        seq = ["initialize"] + rng.choices(CMDS, weights=w, k=rng.randint(4, 8))
+        return {"fam": "seq", "clock": clock, "seq": seq}
+    i -= nrand
+    if i < ngate:
+        ps = _prefixes(tier)
+        p, rest = divmod(i, 16)
+        st, x = divmod(rest, 8)
+        return {"fam": "gate", "clock": ["float", "int", "duration"][p % 3], "prefix": ps[p], "starter": ["start", "run_up_to_including"][st],
+                "x": CMDS[x]}
+    i -= ngate
+    if i < ninside:
+        rep, rest = divmod(i, len(SITES) * 8)
+        site, x = divmod(rest, 8)
+        return {"fam": "inside", "clock": ["float", "int", "duration"][rep % 3], "site": SITES[site], "x": CMDS[x],
+                "starter": ["start", "run_up_to_including", "step"][rep % 3] if rep else "start"}
+    i -= ninside
+    if i < novl:
+        return {"fam": "ovl", "clock": ["float", "int", "duration"][i % 3], "scenario": OVERLAPS[i // 3]}
+    i -= novl
+    n = rng.randint(10, 40)
+    w = [2, 6, 3, 6, 2, 2, 1, 1]
+    cmds = rng.choices(CMDS, weights=w, k=n)
+    return {"fam": "storm", "clock": ["float", "int", "duration"][i % 3], "threads": 1, "commands": cmds,
+            "points": rng.randint(0, 3), "delays": [rng.choice([0.00005, 0.0005, 0.005]) for _ in range(3)], "pseed": rng.randint(0, 10 ** 9),
+            "gaps": [rng.choice([0, 0, 0.0002, 0.002]) for _ in range(n)]}
 
 
 def shard_setup(tier, ctx):
@@ -100,9 +144,18 @@ def shard_teardown(tier, ctx):
 
 
 def run_case(case, ctx):
-    if case["fam"] == "seq":
+    fam = case["fam"]
+    if fam == "seq":
         return _run_seq(case, ctx)
-    raise ValueError(case["fam"])
+    if fam == "gate":
+        return _run_gate(case, ctx)
+    if fam == "inside":
+        return _run_inside(case, ctx)
+    if fam == "ovl":
+        return _run_ovl(case, ctx)
+    if fam == "storm":
+        return _run_storm(case, ctx)
+    raise ValueError(fam)
 
 
 def _abstract(snap):
@@ -235,4 +288,480 @@ def _run_seq(case, ctx):
                 return
         ctx.nontrivial = len(states) >= 3
     finally:
+        h.cleanup()
+
+
+# =========================================================================================== overlapped families
+def _times(prog):
+    from vlib.refdevs import tnum
+    start = tnum(prog, prog["rep"]["start"])
+    return start, start + tnum(prog, prog["rep"]["warmup"]), start + tnum(prog, prog["rep"]["length"])
+
+
+def _issue(h, x, mid):
+    return h.cmd(x, mid) if x in ("run_up_to", "run_up_to_including") else h.cmd(x)
+
+
+def _in_thread(fn):
+    res = {}
+
+    def run():
+        try:
+            res["out"] = fn()
+        except BaseException as e:      # noqa
+            res["out"] = "harness:" + type(e).__name__
+    th = threading.Thread(target=run, name="verif-ctl", daemon=True)
+    th.start()
+    return th, res
+
+
+def _report(ctx, scenario, findings, where):
+    """one signature per scenario (call site + command / forced overlap): the symptoms - which may vary with timing -
+    go into the detail, so a known finding is keyed by the history that fails, not by how it fails"""
+    if findings:
+        ctx.viol(f"{scenario}:protocol-violated", {**where, "symptoms": sorted({s for s, _ in findings}),
+                                                   "details": [d for _, d in findings][:4]})
+    return not findings
+
+
+def _drive_to_end(h, mid, limit=4):
+    """after a scenario: resume until the replication has ended (a usable simulator must allow that)"""
+    for _ in range(limit):
+        if not h.wait_quiescent(20):
+            return False
+        s = h.snapshot()
+        if (s["run_state"], s["replication_state"]) in (("STOPPED", "STARTED"), ("INITIALIZED", "INITIALIZED")):
+            h.cmd("start")
+        else:
+            break
+    return h.wait_quiescent(20)
+
+
+def _run_gate(case, ctx):
+    import copy
+    from vlib.simharness import Harness, Gate, compare_traces
+    from vlib.protocol import ProtoRef
+    from vlib import overlap
+    prog = PROGS[case["clock"]]
+    mid = prog["mid"]
+    start, warm, end = _times(prog)
+    x, starter = case["x"], case["starter"]
+    scen = f"gate:{x}@running({starter})"
+    where = {"clock": case["clock"], "prefix": case["prefix"], "starter": starter, "x": x}
+    pref = ProtoRef(prog, mid)
+    h = Harness(prog)
+    try:
+        pref.apply("initialize")
+        h.cmd("initialize")
+        for c in case["prefix"]:
+            pref.apply(c)
+            _issue(h, c, mid)
+            if not h.wait_quiescent(20):
+                ctx.viol("hang:no-quiescence-in-prefix", where)
+                return
+        if pref.state not in ("II", "SS") or not pref.ref.can_start():
+            return
+        if starter == "run_up_to_including":
+            from vlib.refdevs import tnum
+            if tnum(prog, mid) < pref.ref.clock:
+                return
+        pstop = copy.deepcopy(pref)
+        exp = pref.apply(starter)
+        if not exp["seg"]:
+            return
+        first_h, first_n, first_t = len(h.hlog), len(h.nlog), len(h.timeline)
+        h.pause_gate = Gate()
+        h.pause_at = h.exec_count + 1
+        if _issue(h, starter, mid) != "ok" or not h.pause_gate.reached.wait(10.0):
+            h.pause_gate.open.set()
+            ctx.viol(f"{scen}:run-did-not-reach-the-gate", where)
+            return
+        ctx.count("commands_against_a_parked_run")
+        s0 = h.snapshot()
+        n0 = len(h.nlog)
+        ctx.seen("command_x_state", f"{x}@RUNNING")
+        if x in ("initialize", "start", "step", "run_up_to", "run_up_to_including"):
+            out = _issue(h, x, mid)
+            s1 = h.snapshot()
+            if out == "ok":
+                ctx.viol(f"{scen}:accepted-while-running", {**where, "after": s1})
+            elif out != "DSOLError":
+                ctx.viol(f"{scen}:refused-with-{out}", where)
+            elif s1 != s0 or len(h.nlog) != n0:
+                ctx.viol(f"{scen}:refused-command-changed-something", {**where, "before": s0, "after": s1, "notifications": h.nlog[n0:]})
+            h.pause_at = None
+            h.pause_gate.open.set()
+            if not h.wait_quiescent(20):
+                ctx.viol(f"{scen}:hang", {**where, "snapshot": h.snapshot()})
+                return
+            # the run in progress is unaffected: same segment, state, clock, notifications as without the command
+            snap = h.snapshot()
+            if not compare_traces(ctx, h.trace(first_h), exp["seg"], where, what=f"{scen}:continuation"):
+                return
+            if _abstract(snap) != pref.state or snap["clock"] != float(pref.ref.clock):
+                ctx.viol(f"{scen}:continuation-state-or-clock", {**where, "snapshot": snap, "want_state": pref.state, "want_clock": float(pref.ref.clock)})
+                return
+            got_notes = [n[0] for n in h.nlog[first_n:] if n[0] != "TIME_CHANGED_EVENT"]
+            if got_notes != exp["notes"]:
+                ctx.viol(f"{scen}:continuation-notifications", {**where, "got": got_notes, "want": exp["notes"]})
+                return
+            ctx.nontrivial = True
+            return
+        if x in ("stop", "cleanup"):
+            th, res = _in_thread(lambda: h.cmd(x))
+            t0 = time.time()
+            while h.sim.run_state.name not in ("STOPPING", "NOT_INITIALIZED") and th.is_alive() and time.time() - t0 < 5:
+                time.sleep(0.0002)
+            h.pause_at = None
+            h.pause_gate.open.set()
+            th.join(20)
+            out = res.get("out")
+        else:
+            out = h.cmd("end_replication")
+            h.pause_at = None
+            h.pause_gate.open.set()
+        if out != "ok":
+            ctx.viol(f"{scen}:legal-command-refused:{out}", where)
+            return
+        if not h.wait_quiescent(20):
+            ctx.viol(f"{scen}:hang", {**where, "snapshot": h.snapshot()})
+            return
+        snap = h.snapshot()
+        if x == "stop":
+            seg = pstop.ref.run(bound=None if starter == "start" else __import__("vlib.refdevs", fromlist=["tnum"]).tnum(prog, mid), stop_after=1)
+            want = [(t, c) for t, c, _ in seg if t != "__warmup__"]
+            if not compare_traces(ctx, h.trace(first_h), want, where, what=f"{scen}:segment"):
+                return
+            wstate = "EE" if pstop.ref.state == "ENDED" else "SS"
+            if _abstract(snap) != wstate:
+                ctx.viol(f"{scen}:state:{_abstract(snap)}", {**where, "snapshot": snap, "want": wstate})
+                return
+            notes = [n[0] for n in h.nlog[n0:]]
+            if "STOPPING_EVENT" not in notes or "STOP_EVENT" not in notes:
+                ctx.viol(f"{scen}:notifications", {**where, "got": notes})
+                return
+        elif x == "cleanup":
+            if _abstract(snap) != "NI" or snap["worker"] not in ("none", "dead") or h.sim.has_listeners():
+                ctx.viol(f"{scen}:state:{_abstract(snap)}", {**where, "snapshot": snap, "listeners": h.sim.has_listeners()})
+                return
+        else:
+            findings, abstract = overlap.judge(h, warm, end, None, program_changed=True)
+            if abstract != "EE":
+                findings.append((f"state:{abstract}", {"snapshot": snap}))
+            late = [r for r in h.hlog[first_h:] if r[1] > float(end)]
+            if late:
+                findings.append(("event-later-than-the-replication-end-executed", {"events": late[:4]}))
+            if not _report(ctx, scen, findings, where):
+                return
+        from vlib.simharness import check_clock_monotone
+        if not check_clock_monotone(h, ctx, {**where, "scenario": scen}, sig=f"{scen}:clock-moved-backwards"):
+            return
+        for wk in h.workers:
+            if wk is not (h.worker() if _abstract(snap) in ("II", "SS") else None):
+                wk.join(5.0)
+                if wk.is_alive():
+                    ctx.viol(f"{scen}:run-thread-did-not-terminate", where)
+                    return
+        ctx.nontrivial = True
+    finally:
+        h.cleanup()
+
+
+def _run_inside(case, ctx):
+    from vlib.simharness import Harness, check_clock_monotone
+    from vlib.refdevs import Ref
+    from vlib import overlap
+    import copy
+    prog = copy.deepcopy(PROGS[case["clock"]])
+    mid = prog["mid"]
+    start, warm, end = _times(prog)
+    site, x, starter = case["site"], case["x"], case["starter"]
+    scen = f"inside:{x}@{site}"
+    where = {"clock": case["clock"], "site": site, "x": x, "starter": starter}
+    ref = Ref(prog)
+    ref.initialize()
+    ref.run()
+    h = Harness(prog)
+    done = {"n": 0, "out": None, "before": None, "after": None, "thread": None}
+
+    def inner():
+        if done["n"]:
+            return
+        done["n"] += 1
+        done["before"] = h.snapshot()
+        done["thread"] = threading.current_thread().name
+        n0 = len(h.nlog)
+        done["out"] = _issue(h, x, mid)
+        done["after"] = h.snapshot()
+        done["notes"] = [n[0] for n in h.nlog[n0:]]
+
+    try:
+        if site == "handler":
+            prog["handlers"].setdefault("a2" if "a2" in [a[3] for a in prog["init"]] else prog["init"][1][3], []).insert(0, ["cmd"])
+            h.on_action = lambda model, a, parent: inner() if a[0] == "cmd" else None
+        else:
+            h.on_notify = lambda name, event: inner() if name == site else None
+        h.cmd("initialize")
+        if site == "STOPPING_EVENT":
+            o, so, parked = h.start_and_pause_after(2)
+        else:
+            _issue(h, starter, mid)
+        if not h.wait_quiescent(30):
+            ctx.viol(f"{scen}:hang", {**where, "snapshot": h.snapshot()})
+            return
+        if site == "END_REPLICATION_EVENT" and not done["n"]:
+            _drive_to_end(h, mid)
+        if not done["n"]:
+            _drive_to_end(h, mid)
+        if not done["n"]:
+            return
+        ctx.count("commands_from_inside")
+        ctx.seen("inside_sites", f"{x}@{site}:{done['before']['run_state']}/{done['before']['replication_state']}:{'ok' if done['out'] == 'ok' else 'refused'}")
+        b = done["before"]
+        running = b["run_state"] in ("STARTING", "STARTED")
+        ended = b["replication_state"] in ("ENDING", "ENDED")
+        out = done["out"]
+        changed = x in ("initialize", "cleanup", "end_replication") and out == "ok"
+        # what the table prescribes for the state the command met
+        if x in ("initialize", "start", "step", "run_up_to", "run_up_to_including"):
+            must_refuse = running or (x != "initialize" and ended)
+        elif x == "stop":
+            must_refuse = not running
+        elif x == "end_replication":
+            must_refuse = b["replication_state"] == "ENDED"
+        else:
+            must_refuse = False
+        findings = []
+        if must_refuse:
+            if out == "ok":
+                findings.append(("accepted-where-the-protocol-refuses", {"met": b}))
+            elif out != "DSOLError":
+                findings.append((f"refused-with-{out}", {"met": b}))
+            elif done["after"] != b or done["notes"]:
+                findings.append(("refused-command-changed-something", {"before": b, "after": done["after"], "notifications": done["notes"]}))
+        elif out not in ("ok",) and x in ("stop", "end_replication", "cleanup"):
+            findings.append((f"legal-command-refused:{out}", {"met": b}))
+        _drive_to_end(h, mid) if not changed or x == "end_replication" else h.wait_quiescent(20)
+        f2, abstract = overlap.judge(h, warm, end, ref.trace, program_changed=changed or x == "cleanup")
+        findings += f2
+        if x == "cleanup" and out == "ok" and abstract not in ("NI", None):
+            findings.append((f"state-after-cleanup:{abstract}", {}))
+        if not _report(ctx, scen, findings, where):
+            return
+        if not check_clock_monotone(h, ctx, {**where, "scenario": scen}, sig=f"{scen}:clock-moved-backwards"):
+            return
+        ctx.nontrivial = True
+    finally:
+        h.cleanup()
+
+
+def _run_ovl(case, ctx):
+    from vlib.simharness import Harness, Gate, check_clock_monotone
+    from vlib.refdevs import Ref
+    from vlib import overlap
+    import copy
+    prog = copy.deepcopy(PROGS[case["clock"]])
+    mid = prog["mid"]
+    start, warm, end = _times(prog)
+    sc = case["scenario"]
+    scen = f"ovl:{sc}"
+    where = {"clock": case["clock"], "scenario": sc}
+    ref = Ref(prog)
+    ref.initialize()
+    ref.run()
+    n_events = len([1 for t, _, _ in ref.trace if not t.startswith("__")])
+    h = Harness(prog)
+    flags = {"end_seen": threading.Event(), "in_window": threading.Event(), "release": threading.Event(), "armed": True}
+    changed = False
+    try:
+        h.cmd("initialize")
+        if sc == "stop-vs-natural-end":
+            # stop() passes its check while the run is in its last event, is held in its own STOPPING notification until
+            # the run thread has ended the replication, and only then writes its state
+            def on_notify(name, event):
+                if name == "END_REPLICATION_EVENT":
+                    flags["end_seen"].set()
+                if name == "STOPPING_EVENT" and flags["armed"]:
+                    flags["armed"] = False
+                    flags["in_window"].set()
+                    flags["end_seen"].wait(5.0)
+            h.on_notify = on_notify
+            h.pause_gate = Gate()
+            h.pause_at = h.exec_count + n_events
+            h.cmd("start")
+            if not h.pause_gate.reached.wait(10.0):
+                ctx.viol(f"{scen}:setup-failed", where)
+                return
+            th, res = _in_thread(lambda: h.cmd("stop"))
+            flags["in_window"].wait(5.0)
+            h.pause_at = None
+            h.pause_gate.open.set()
+            th.join(20)
+        elif sc in ("start-during-stopping", "step-during-stopping", "bounded-run-during-stopping"):
+            # the STOP notification is delivered by the run thread inside its STOPPING window: hold it there while the
+            # caller issues the next start / step
+            def on_notify(name, event):
+                if name == "STOP_EVENT" and flags["armed"]:
+                    flags["armed"] = False
+                    flags["in_window"].set()
+                    flags["release"].wait(5.0)
+            h.on_notify = on_notify
+            h.pause_gate = Gate()
+            h.pause_at = h.exec_count + 2
+            h.cmd("start")
+            h.pause_gate.reached.wait(10.0)
+            th, res = _in_thread(lambda: h.cmd("stop"))
+            t0 = time.time()
+            while h.sim.run_state.name != "STOPPING" and time.time() - t0 < 5:
+                time.sleep(0.0002)
+            h.pause_at = None
+            h.pause_gate.open.set()
+            flags["in_window"].wait(5.0)
+            nxt = {"start-during-stopping": "start", "step-during-stopping": "step", "bounded-run-during-stopping": "run_up_to_including"}[sc]
+            th2, res2 = _in_thread(lambda: _issue(h, nxt, prog["rep"]["length"] if nxt.startswith("run") else None))
+            t0 = time.time()
+            while h.sim.run_state.name not in ("STARTING", "STARTED") and th2.is_alive() and time.time() - t0 < 2:
+                time.sleep(0.0002)
+            flags["release"].set()
+            th.join(20)
+            th2.join(20)
+        elif sc == "end_replication-in-bounded-run":
+            prog["handlers"].setdefault(prog["init"][1][3], []).insert(0, ["cmd"])
+            h.on_action = lambda model, a, parent: h.cmd("end_replication") if a[0] == "cmd" else None
+            changed = True
+            h.cmd("run_up_to_including", mid)
+        elif sc == "stop-then-start-fast":
+            h.start_and_pause_after(1)
+            h.cmd("start")
+        elif sc == "rapid-start-stop":
+            for _ in range(12):
+                h.cmd("start")
+                h.cmd("stop")
+        ctx.count("forced_overlaps")
+        if not h.wait_quiescent(30):
+            ctx.viol(f"{scen}:hang", {**where, "snapshot": h.snapshot()})
+            return
+        findings, abstract = overlap.judge(h, warm, end, ref.trace, program_changed=changed)
+        first_state = abstract
+        if abstract in ("SS", "II") and not changed:
+            _drive_to_end(h, mid)
+            f2, abstract = overlap.judge(h, warm, end, ref.trace, program_changed=changed)
+            findings = findings + [f for f in f2 if f[0] not in {x[0] for x in findings}]
+            if abstract != "EE":
+                findings.append((f"cannot-be-driven-to-the-end:{abstract}", {"snapshot": h.snapshot()}))
+        ctx.seen("overlap_outcomes", f"{sc}:{first_state}->{abstract}")
+        if not _report(ctx, scen, findings, where):
+            return
+        if not check_clock_monotone(h, ctx, {**where, "scenario": scen}, sig=f"{scen}:clock-moved-backwards"):
+            return
+        ctx.nontrivial = True
+    finally:
+        h.cleanup()
+
+
+# ------------------------------------------------------------------------------------------- storms with delay injection (M5)
+_INJ = {"on": False, "points": {}, "hits": None, "installed": False}
+
+
+def _install_injector():
+    if _INJ["installed"] or not hasattr(sys, "monitoring"):
+        return _INJ["installed"]
+    from pydsol.core import simulator as S
+    mon = sys.monitoring
+    tool = mon.PROFILER_ID
+    try:
+        mon.use_tool_id(tool, "verif-delay-injector")
+    except ValueError:
+        return False
+    funcs = [S.SimulatorWorkerThread.run, S.Simulator._start_impl, S.Simulator._stop_impl, S.Simulator.stop, S.Simulator.step,
+             S.Simulator.cleanup, S.Simulator.initialize, S.Simulator.end_replication, S.DEVSSimulator._run, S.DEVSSimulator.initialize]
+    codes = [f.__code__ for f in funcs]
+    lines = []
+    for c in codes:
+        for _, _, ln in c.co_lines():
+            if ln is not None and ln > c.co_firstlineno:
+                lines.append((c.co_name, ln))
+    _INJ["lines"] = sorted(set(lines))
+
+    def cb(code, line):
+        if not _INJ["on"]:
+            return
+        d = _INJ["points"].get((code.co_name, line))
+        if d is not None:
+            _INJ["hits"].add((threading.current_thread().name.split("-")[0], code.co_name, line))
+            time.sleep(d)
+    mon.register_callback(tool, mon.events.LINE, cb)
+    for c in codes:
+        mon.set_local_events(tool, c, mon.events.LINE)
+    _INJ["installed"] = True
+    return True
+
+
+def _run_storm(case, ctx):
+    import random
+    from vlib.simharness import Harness, check_clock_monotone
+    from vlib.refdevs import Ref
+    from vlib import overlap
+    prog = PROGS[case["clock"]]
+    mid = prog["mid"]
+    start, warm, end = _times(prog)
+    where = {"clock": case["clock"], "threads": case["threads"], "commands": case["commands"], "points": case["points"]}
+    ok = _install_injector()
+    prng = random.Random(case["pseed"])
+    if ok:
+        pts = prng.sample(_INJ["lines"], min(case["points"], len(_INJ["lines"])))
+        _INJ["points"] = {p: d for p, d in zip(pts, case["delays"])}
+        _INJ["hits"] = set()
+    h = Harness(prog)
+    changed = any(c in ("initialize", "cleanup", "end_replication") for c in case["commands"])
+    try:
+        h.cmd("initialize")
+        _INJ["on"] = ok
+        cmds = list(zip(case["commands"], case["gaps"]))
+
+        def controller(part):
+            for c, gap in part:
+                if c == "initialize":
+                    continue        # re-initialising from a second controller is a model error, not a protocol subject
+                _issue(h, c, mid)
+                if gap:
+                    time.sleep(gap)
+        if case["threads"] == 1:
+            controller(cmds)
+        else:
+            a = _in_thread(lambda: controller(cmds[0::2]))
+            b = _in_thread(lambda: controller(cmds[1::2]))
+            a[0].join(120)
+            b[0].join(120)
+        _INJ["on"] = False
+        ctx.count("storms")
+        if not h.wait_quiescent(30):
+            ctx.viol("storm:hang", {**where, "snapshot": h.snapshot()})
+            return
+        if ok:
+            for hit in _INJ["hits"]:
+                ctx.seen("injection_points_hit", f"{hit[0]}:{hit[1]}:{hit[2]}")
+            ctx.count("delay_injections_points_hit", len(_INJ["hits"]))
+        ref = Ref(prog)
+        ref.initialize()
+        ref.run()
+        # which replication's trace to compare: only when the storm never replaced the program state
+        findings, abstract = overlap.judge(h, warm, end, ref.trace if not changed else None, program_changed=changed)
+        ctx.seen("storm_final_states", str(abstract))
+        # storms hit the run thread's windows at random: symptoms are reported in coarse classes (the deterministic
+        # families above identify the individual mechanisms)
+        coarse = []
+        for sig, detail in findings:
+            if sig.startswith("stream:"):
+                sig = "notification-stream-malformed"
+            elif sig.startswith("final-state:") or sig.startswith("run-thread-"):
+                sig = "inconsistent-final-state"
+            coarse.append((sig, {**(detail or {}), "fine": sig}))
+        if not _report(ctx, "storm", coarse, where):
+            return
+        if not check_clock_monotone(h, ctx, {**where, "scenario": "storm"}, sig="storm:clock-moved-backwards"):
+            return
+        ctx.nontrivial = True
+    finally:
+        _INJ["on"] = False
         h.cleanup()
